@@ -176,3 +176,16 @@ def derived_const_strs(facts, b, local):
             if facts.has(n):
                 out.extend(body_const_strs(facts.body(n)))
     return out
+
+
+def copies_forward(b, local):
+    """locals that receive `local` through plain moves/copies (`x = move y`), including `local` itself"""
+    out = {local}
+    grew = True
+    while grew:
+        grew = False
+        for bi, si, s in b.iter_stmts():
+            if s["rv"]["k"] == "use" and not s["d"].get("p") and op_local(s["rv"]["op"]) in out and not op_place(s["rv"]["op"]).get("p") and s["d"]["l"] not in out:
+                out.add(s["d"]["l"])
+                grew = True
+    return out
